@@ -617,6 +617,31 @@ func allCases(thorough bool, c codec) []testCase {
 			}
 		}
 	}
+	// (5d) a str and a bytes with byte-identical content in one value, at several length classes and
+	// positions (text and bytes of equal content are different values)
+	for _, n := range []int{0, 1, 15, 16, 17, 255, 256, 300} {
+		content := strings.Repeat("s", n)
+		n := n
+		for _, order := range []bool{true, false} {
+			order := order
+			pair := func() (starlark.Value, starlark.Value) {
+				if order {
+					return starlark.String(content), starlark.Bytes(content)
+				}
+				return starlark.Bytes(content), starlark.String(content)
+			}
+			add(fmt.Sprintf("tuple of str and bytes of equal content, %d bytes, str first=%v", n, order), "str-bytes-same-content", func() starlark.Value {
+				a, b := pair()
+				return starlark.Tuple{a, b, a}
+			})
+			add(fmt.Sprintf("list holding one and dict keyed by the other, %d bytes, str first=%v", n, order), "str-bytes-same-content", func() starlark.Value {
+				a, b := pair()
+				d := starlark.NewDict(1)
+				d.SetKey(b, starlark.None)
+				return starlark.NewList([]starlark.Value{a, d})
+			})
+		}
+	}
 	// (6) aliasing graphs: three mutable containers with two reference slots each
 	kinds := [][3]string{{"list", "list", "list"}, {"dict", "list", "list"}, {"list", "dict", "dict"}, {"dict", "dict", "dict"}, {"list", "list", "host"}}
 	if !thorough {
